@@ -1,5 +1,212 @@
 package sim
 
-import mqtt "github.com/at-wat/mqtt-go"
+import (
+	"fmt"
+	"strings"
+	"time"
 
-func (s *Sim) muxHandler(h int) mqtt.Handler { return nil }
+	mqtt "github.com/at-wat/mqtt-go"
+)
+
+// C20 topology: BaseClient.Handle(ServeMux{registrations...}), some of them
+// wrapped in ServeAsync. Every handler records what it received, parks,
+// checks again, scribbles over everything it was given, parks and re-reads.
+
+func scribbleOf(idx int, orig *Pkt) *Pkt {
+	return &Pkt{
+		Type:   TPublish,
+		Topic:  fmt.Sprintf("scribble-%d", idx),
+		Pay:    strings.Repeat(string(rune('A'+idx)), len(orig.Pay)) + "Z",
+		QoS:    (orig.QoS + 1) % 3,
+		Retain: !orig.Retain,
+		Dup:    !orig.Dup,
+		ID:     orig.ID + 1000 + uint16(idx),
+	}
+}
+
+func (s *Sim) scribbler(idx int, parkUs int64) mqtt.Handler {
+	return mqtt.HandlerFunc(func(m *mqtt.Message) {
+		entry := msgPkt(m)
+		tok := tokenOf(entry.Pay)
+		s.log(Rec{Kind: "hin", V: int64(idx), P: entry, S: tok})
+		if parkUs > 0 && !s.race {
+			time.Sleep(time.Duration(parkUs) * time.Microsecond)
+		} else if s.race {
+			runtimeGosched()
+		}
+		// still what was received?
+		s.log(Rec{Kind: "hmid", V: int64(idx), P: msgPkt(m), S: tok})
+		want := scribbleOf(idx, entry)
+		for i := range m.Payload {
+			m.Payload[i] = byte('A' + idx)
+		}
+		m.Payload = append(m.Payload, 'Z')
+		m.Topic = want.Topic
+		m.QoS = mqtt.QoS(want.QoS)
+		m.Retain = want.Retain
+		m.Dup = want.Dup
+		m.ID = want.ID
+		if parkUs > 0 && !s.race {
+			time.Sleep(time.Duration(parkUs/2+1) * time.Microsecond)
+		} else if s.race {
+			runtimeGosched()
+		}
+		s.log(Rec{Kind: "hout", V: int64(idx), P: msgPkt(m), S: tok})
+	})
+}
+
+func (s *Sim) muxHandler(h int) mqtt.Handler {
+	s.mu.Lock()
+	if s.mux != nil {
+		m := s.mux
+		s.mu.Unlock()
+		return m
+	}
+	s.mu.Unlock()
+	mux := &mqtt.ServeMux{}
+	for i, reg := range s.sc.Cfg.Mux {
+		var hd mqtt.Handler = s.scribbler(i, reg.ParkUs)
+		if reg.Async {
+			hd = &mqtt.ServeAsync{Handler: hd}
+		}
+		if err := mux.Handle(reg.Filter, hd); err != nil {
+			s.log(Rec{Kind: "muxerr", S: reg.Filter, Err: err.Error()})
+		}
+	}
+	var out mqtt.Handler = mux
+	if s.sc.Cfg.MuxAsyncOuter {
+		out = &mqtt.ServeAsync{Handler: mux}
+	}
+	s.mu.Lock()
+	s.mux = out
+	s.mu.Unlock()
+	return out
+}
+
+// muxServe: an application goroutine calls the mux directly with its own
+// message, then reuses that message.
+func (s *Sim) muxServe(i int, op *Op) {
+	h := s.muxHandler(1)
+	m := &mqtt.Message{Topic: op.Topic, QoS: mqtt.QoS(op.QoS), Retain: op.Retain, Payload: s.payload(op), ID: op.PresetID}
+	before := msgPkt(m)
+	s.log(Rec{Kind: "caller", Op: i + 1, S: "before", P: before})
+	h.Serve(m)
+	s.log(Rec{Kind: "caller", Op: i + 1, S: "after-serve", P: msgPkt(m)})
+	if op.CtxTimeoutUs > 0 && !s.race {
+		time.Sleep(time.Duration(op.CtxTimeoutUs) * time.Microsecond)
+	}
+	s.log(Rec{Kind: "caller", Op: i + 1, S: "later", P: msgPkt(m)})
+	// the caller reuses its message
+	for j := range m.Payload {
+		m.Payload[j] = '#'
+	}
+	m.Topic = "reused"
+	s.log(Rec{Kind: "caller", Op: i + 1, S: "reused"})
+}
+
+func genC20(r *Rng) *Scenario {
+	sc := &Scenario{Cfg: baseCfg(r)}
+	cfg := &sc.Cfg
+	cfg.HoldAcks = false
+	fs := []string{"a/x", "a/+", "#", "+/x", "a/#", "b", "+"}
+	n := int(r.between(1, 4))
+	for i := 0; i < n; i++ {
+		reg := MuxReg{Filter: fs[r.IntN(len(fs))], Async: r.chance(0.5)}
+		if r.chance(0.7) {
+			reg.ParkUs = r.between(1, 400)
+		}
+		cfg.Mux = append(cfg.Mux, reg)
+	}
+	cfg.MuxAsyncOuter = r.chance(0.2)
+	if r.chance(0.4) {
+		cfg.Frag = []int{int(r.between(1, 5))}
+	}
+	sc.Ops = append(sc.Ops, Op{AtUs: 0, Actor: 1, Kind: "handle", Handler: 1})
+	sc.Ops = append(sc.Ops, Op{AtUs: 1, Actor: 0, Kind: "connect"})
+	t := rtt(cfg) + 10
+	k := int(r.between(1, 6))
+	tps := []string{"a/x", "a", "b", "a/x/y", "c/x"}
+	for i := 0; i < k; i++ {
+		if r.chance(0.6) {
+			t += r.between(0, 300)
+		}
+		if r.chance(0.25) {
+			op := Op{AtUs: t, Actor: 5 + i, Kind: "muxserve", Topic: tps[r.IntN(len(tps))], Token: fmt.Sprintf("dm%d", i), QoS: byte(r.IntN(3)), Retain: r.chance(0.3), PayLen: int(r.between(0, 12)), CtxTimeoutUs: r.between(0, 500)}
+			if op.QoS > 0 {
+				op.PresetID = uint16(r.between(1, 500))
+			}
+			sc.Ops = append(sc.Ops, op)
+			continue
+		}
+		q := byte(r.IntN(2))
+		p := &Pkt{Type: TPublish, QoS: q, Topic: tps[r.IntN(len(tps))], Pay: fmt.Sprintf("in%d.%s", i, strings.Repeat("p", r.IntN(10))), Retain: r.chance(0.3), Dup: q > 0 && r.chance(0.3)}
+		if q > 0 {
+			p.ID = uint16(10 + i)
+		}
+		sc.Script = append(sc.Script, Out{Conn: 1, AtUs: t, Kind: "pkt", Pkt: p})
+	}
+	sc.HorizonUs = t + 5000
+	sc.EndUs = sc.HorizonUs + 5000
+	return sc
+}
+
+func checkC20(ix *index, add addFn) {
+	// originals by token
+	orig := map[string]*Pkt{}
+	for _, i := range ix.rx {
+		r := &ix.tr[i]
+		if r.P != nil && r.P.Type == TPublish {
+			orig[tokenOf(r.P.Pay)] = r.P
+		}
+	}
+	for i := range ix.tr {
+		r := &ix.tr[i]
+		if r.Kind == "caller" && r.S == "before" {
+			orig[tokenOf(r.P.Pay)] = r.P
+		}
+	}
+	eq := func(a, b *Pkt) bool {
+		return a.Topic == b.Topic && a.Pay == b.Pay && a.QoS == b.QoS && a.Retain == b.Retain && a.Dup == b.Dup && a.ID == b.ID
+	}
+	entry := map[string]*Pkt{} // idx/token -> entry snapshot
+	for i := range ix.tr {
+		r := &ix.tr[i]
+		key := fmt.Sprintf("%d/%s", r.V, r.S)
+		switch r.Kind {
+		case "hin":
+			o := orig[r.S]
+			if o == nil {
+				add("equal", fmt.Sprintf("handler %d received a message %q nobody sent", r.V, r.P.Pay), nil)
+				continue
+			}
+			entry[key] = r.P
+			if !eq(o, r.P) {
+				add("equal", fmt.Sprintf("handler %d received %s, the message is %s", r.V, r.P, o), nil)
+			}
+		case "hmid":
+			if e := entry[key]; e != nil && !eq(e, r.P) {
+				add("private", fmt.Sprintf("handler %d: its message changed under it while it was parked: %s -> %s", r.V, e, r.P), map[string]string{"when": "before-own-scribble"})
+			}
+		case "hout":
+			if e := entry[key]; e != nil {
+				want := scribbleOf(int(r.V), e)
+				if !eq(want, r.P) {
+					add("private", fmt.Sprintf("handler %d: re-reading its own message after all scribbling shows %s, it wrote %s", r.V, r.P, want), map[string]string{"when": "after-own-scribble"})
+				}
+			}
+		case "caller":
+			if r.S == "after-serve" || r.S == "later" {
+				var o *Pkt
+				for j := i; j >= 0; j-- {
+					if ix.tr[j].Kind == "caller" && ix.tr[j].Op == r.Op && ix.tr[j].S == "before" {
+						o = ix.tr[j].P
+						break
+					}
+				}
+				if o != nil && !eq(o, r.P) {
+					add("private", fmt.Sprintf("the caller's message changed (%s): %s -> %s", r.S, o, r.P), map[string]string{"when": "caller"})
+				}
+			}
+		}
+	}
+}
